@@ -69,13 +69,13 @@ type Ctl struct {
 	fp      hash.Hash64
 	start   time.Time
 
-	strategy  int // 0 uniform-weighted, 1 priority (PCT-style)
-	prio      map[string]int
-	changeAt  map[int]bool
-	lowPrio   int
+	strategy   int // 0 uniform-weighted, 1 priority (PCT-style)
+	prio       map[string]int
+	changeAt   map[int]bool
+	lowPrio    int
 	FPOverride string // rigs without a scheduler loop fingerprint their history themselves
-	NoFaults  bool // drain phase: fault sources must not fire
-	ClockOnly bool
+	NoFaults   bool   // drain phase: fault sources must not fire
+	ClockOnly  bool
 }
 
 // NewCtl must be called inside the bubble.
